@@ -108,9 +108,15 @@ func (r *Runner) RunCheck(ck *Check, tier string, seed int, filter string) int {
 				}
 			}
 			var altSolver *smt.Solver
+			extra := map[string]*smt.Solver{}
 			defer func() {
 				if altSolver != nil {
 					altSolver.Close()
+				}
+				for _, e := range extra {
+					if e != nil {
+						e.Close()
+					}
 				}
 			}()
 			for {
@@ -132,7 +138,19 @@ func (r *Runner) RunCheck(ck *Check, tier string, seed int, filter string) int {
 					}
 					alts = append(alts, altSolver)
 				}
-				results[i] = r.RunCase(progs[cases[i].Config], cases[i], solver, cross, alts...)
+				prim, crs := solver, cross
+				if k := cases[i].Solver; k != "" && k != r.Solver {
+					if extra[k] == nil {
+						extra[k], _ = smt.StartSolver(k, r.TimeoutMs)
+					}
+					if extra[k] != nil {
+						prim = extra[k]
+						if crs != nil && crs.Kind == k {
+							crs = solver // the runner's primary becomes the cross-check
+						}
+					}
+				}
+				results[i] = r.RunCase(progs[cases[i].Config], cases[i], prim, crs, alts...)
 				if r.Verbose {
 					cr := results[i]
 					fmt.Fprintf(os.Stderr, "[%s] %s: %s paths=%d obl=%d q=%d %.1fs %s\n", ck.ID, cases[i].Key(), cr.Status, cr.Paths, cr.Obligations, cr.Stats.Queries, cr.Wall.Seconds(), cr.Msg)
